@@ -72,6 +72,10 @@ type Options struct {
 	Resume bool
 	PsDir  string
 	Pid    int
+	// JobsCatchSignal: when mrp dies (CrashAt / SignalAt) the monitors of the
+	// running jobs record "_errors: Caught signal terminated", as mrjob does
+	// on SIGTERM, instead of vanishing without a trace.
+	JobsCatchSignal bool
 	// Retries is mrp's --autoretry: how many times a failure that
 	// Pipestance.IsErrorTransient accepts is answered by a restart.
 	Retries int
@@ -149,6 +153,8 @@ type Result struct {
 	// sections after the signal arrived.
 	SignalEffects []string
 	SignalDelay   int
+	// CaughtSignal: jobs whose monitor recorded the signal (JobsCatchSignal).
+	CaughtSignal []string
 	// Retried counts the automatic restarts after transient failures.
 	Retried int
 	// CompiledOK: the invocation was refused although the compiler accepts
@@ -681,6 +687,9 @@ func Run(p *progen.Program, sched Schedule, opts Options) (res *Result) {
 			res.Stalled = true
 			break
 		}
+	}
+	if crashed && opts.JobsCatchSignal {
+		res.CaughtSignal = h.JobsCatchSignal()
 	}
 	res.Events = h.Events
 	res.PsPath = psdir
